@@ -334,26 +334,35 @@ def preparedTaxa (ts : List Taxon) : List (Name × List PoorSpan) :=
 
 /-! ## `TagDatabase.__init__` + the `data` of `get_json` -/
 
+/-- `internal_program_paths` of a collection. -/
+def internalOf (progs : List Prog) : List Name := internalPaths (progs.map (·.path))
+
+/-- The labels of one program after the relabelling loop. -/
+def labelsOf (internal : List Name) (p : Prog) : List Label := relabel internal p.labels
+
 /-- The labelled programs: (path, relabelled labels). -/
 def labelled (progs : List Prog) : List (Name × List Label) :=
-  let internal := internalPaths (progs.map (·.path))
-  progs.map fun p => (p.path, relabel internal p.labels)
+  progs.map fun p => (p.path, labelsOf (internalOf progs) p)
+
+/-- The taxa of the labelled programs (`map_labels_on_taxa`, the taxonomy being an oracle). -/
+def taxaed (toTaxa : Name → List Label → List Taxon) (progs : List Prog) : List (Name × List Taxon) :=
+  progs.map fun p => (p.path, toTaxa p.path (labelsOf (internalOf progs) p))
+
+/-- `programs_infos[program.path]` -/
+def recordOf (toTaxa : Name → List Label → List Taxon) (internal : List Name) (p : Prog) : Record :=
+  { timestamp := p.timestamp, source := p.source,
+    labels := preparedLabels (labelsOf internal p),
+    taxa := preparedTaxa (toTaxa p.path (labelsOf internal p)) }
 
 def makeDb (toTaxa : Name → List Label → List Taxon) (progs : List Prog) : Except Err Db :=
   let lab := labelled progs
-  let tax := lab.map fun p => (p.1, toTaxa p.1 p.2)
   let imps := completeImportations (directImportations lab)
   match exportations (progs.map (·.path)) imps with
   | .error e => .error e
   | .ok exps =>
-    let recs := (progs.zip (lab.zip tax)).foldl
-      (fun d (q : Prog × ((Name × List Label) × (Name × List Taxon))) =>
-        set d q.1.path
-          { timestamp := q.1.timestamp, source := q.1.source,
-            labels := preparedLabels q.2.1.2, taxa := preparedTaxa q.2.2.2 }) []
-    .ok { programs := recs
+    .ok { programs := progs.foldl (fun d p => set d p.path (recordOf toTaxa (internalOf progs) p)) []
           labels := sortKeys (collect (labelOcc lab))
-          taxa := sortKeys (collect (taxonOcc tax))
+          taxa := sortKeys (collect (taxonOcc (taxaed toTaxa progs)))
           importations := imps
           exportations := exps }
 
